@@ -144,13 +144,23 @@ class Oblig:
     def __init__(self, eng, rep, prop):
         self.eng, self.rep, self.prop = eng, rep, prop
 
-    def decide(self, rule, oblig, fi, role, ok, what_ok, what_bad, summ=None, site=None, path=None, nontrivial=True):
+    def _decide(self, rule, oblig, fi, role, ok, what_ok, what_bad, summ=None, site=None, path=None, nontrivial=True):
         if ok:
             return self.rep.holds(rule, oblig, fi.qname, role, what_ok, site=site, nontrivial=nontrivial)
         why = undecidable(summ) if summ is not None else None
         if why:
             return self.rep.error(rule, oblig, fi.qname, role, what_bad + " - but " + why, site=site)
         return self.rep.violation(rule, oblig, fi.qname, role, what_bad, site=site, path=path)
+
+    def decide(self, rule, oblig, fi, role, ok, what_ok, what_bad, summ=None, site=None, path=None, nontrivial=True):
+        if not ok and rule == "R2" and summ is not None and not has_ecl_source(summ):
+            # an epsilon-closedness obligation on code that never asks for a closure the analysis recognises (eclose,
+            # eclose_iterable, a private epsilon-only worklist): the closure is computed by other means - all closures
+            # at once, an SCC pass, a table - whose correctness is a fact about values.  Not a violation: cannot follow.
+            return self.rep.error(rule, oblig, fi.qname, role, what_bad + " - but no recognised epsilon-closure "
+                                  "computation is used here at all: closures are obtained by means the rule cannot follow",
+                                  site=site)
+        return self._decide(rule, oblig, fi, role, ok, what_ok, what_bad, summ, site, path, nontrivial)
 
     def worklist(self, oblig, fi, role, what_ok, what_bad):
         """R10a with the verdict policy: a loop of another shape (recursion, comprehension) is `not understood`
@@ -160,6 +170,15 @@ class Oblig:
         if ok:
             return self.rep.holds("R10a", oblig, fi.qname, role, what_ok, site=site)
         if why == "no worklist loop found":
+            # the loop may live in a private helper the function delegates to (`return self._reachable_by(seeds, ..)`)
+            for h in code_nodes(self.eng.prog, fi)[1:]:
+                ok2, why2, _ = is_worklist_closure(h, helpers_of(self.eng.prog, fi))
+                if ok2:
+                    return self.rep.holds("R10a", oblig, fi.qname, role, what_ok + " (in the private helper %s)" % h.name,
+                                          site=site)
+                if why2 != "no worklist loop found":
+                    return self.rep.violation("R10a", oblig, fi.qname, role, what_bad + " (helper %s): %s" % (h.name, why2),
+                                              site=site)
             return self.rep.error("R10a", oblig, fi.qname, role, what_bad + ": the closure is not written as a worklist "
                                   "loop any more; the rule cannot follow it", site=site)
         return self.rep.violation("R10a", oblig, fi.qname, role, what_bad + ": " + why, site=site)
@@ -183,6 +202,15 @@ class Oblig:
         site = (bad[0] if bad else evs[0][0]).site.to_json()
         return self.decide(rule, oblig, fi, role, ok, what, "%s: does not hold (missing dependence on %s)" % (what, _tag(tag)),
                            summ, site=site)
+
+
+def has_ecl_source(summ) -> bool:
+    """some call reached from the entry returns a value qualified ECL (eclose, eclose_iterable, a private epsilon-only
+    worklist helper)"""
+    for ev, _ in summ.walk():
+        if ev.kind == "call" and ev.result is not None and any(isinstance(q, tuple) and q and q[0] == "ECL" for q in ev.result.quals):
+            return True
+    return False
 
 
 def _tag(tag):
@@ -300,6 +328,15 @@ def is_worklist_closure(fn_node, helpers=None):
         pushes = [(c, lp, {}) for c in ast.walk(lp) if isinstance(c, ast.Call) and isinstance(c.func, ast.Attribute)
                   and c.func.attr in ("append", "put", "appendleft") and ast.unparse(c.func.value) == w]
         pushes += _helper_pushes(lp, w, helpers)
+        # a nested function of the same body that captures the worklist (`def discover(..): .. W.append(..)`)
+        nested = {n.name: n for n in ast.walk(fn_node) if isinstance(n, ast.FunctionDef) and n is not fn_node}
+        for c in ast.walk(lp):
+            if isinstance(c, ast.Call) and isinstance(c.func, ast.Name) and c.func.id in nested:
+                h = nested[c.func.id]
+                for p_ in ast.walk(h):
+                    if isinstance(p_, ast.Call) and isinstance(p_.func, ast.Attribute) and \
+                            p_.func.attr in ("append", "put", "appendleft") and ast.unparse(p_.func.value) == w:
+                        pushes.append((p_, h, {}))
         if not pushes:
             passed = any(isinstance(c, ast.Call) and any(ast.unparse(a) == w for a in c.args) for c in ast.walk(lp))
             if passed:
@@ -905,9 +942,97 @@ def code_nodes(prog, fi, depth=2):
                 if isinstance(c, ast.Call):
                     nm = c.func.attr if isinstance(c.func, ast.Attribute) else getattr(c.func, "id", None)
                     h = hs.get(nm) if nm and nm.startswith("_") and not (nm.startswith("__") and nm.endswith("__")) else None
+                    if h is None and isinstance(c.func, ast.Name) and nm:
+                        # a plain call of a module-level function of the package (same module or imported), whatever
+                        # its name: shared reading / writing helpers of several classes live there
+                        ent = prog.lookup(fi.module, nm)
+                        if type(ent).__name__ == "FuncInfo" and ent.cls is None and isinstance(ent.node, ast.FunctionDef):
+                            h = ent.node
                     if h is not None and id(h) not in seen:
                         seen.add(id(h))
                         out.append(h)
                         nxt.append(h)
         frontier = nxt
     return out
+
+
+def enumerate_offsets(fn_node, ctor_name="Variable"):
+    """Fresh names numbered by `enumerate`: `{v: Ctor(f"..{i}") for i, v in enumerate(X, start)}`.  The numbers of two
+    such passes are disjoint iff each pass starts where the previous ones ended: the first starts at 0 (or no start),
+    a later one starts at a local k that was set to the size of the first mapping (`k = len(M0)`) and is advanced, in
+    the block of the pass, by the size of the mapping THAT pass built (`k += len(M)`; len(X) of the collection it
+    enumerated is the same number).  Returns None when no such numbering exists, else (ok, why, index names)."""
+    passes = []
+    for node in ast.walk(fn_node):
+        gens = []
+        if isinstance(node, (ast.DictComp, ast.ListComp, ast.SetComp, ast.GeneratorExp)):
+            gens = [(g.target, g.iter, node) for g in node.generators]
+        elif isinstance(node, ast.For):
+            gens = [(node.target, node.iter, node)]
+        for tgt, it, holder in gens:
+            if not (isinstance(it, ast.Call) and getattr(it.func, "id", None) == "enumerate" and it.args and
+                    isinstance(tgt, ast.Tuple) and len(tgt.elts) == 2 and isinstance(tgt.elts[0], ast.Name)):
+                continue
+            idx = tgt.elts[0].id
+            spliced = any(isinstance(c, ast.Call) and getattr(c.func, "id", None) == ctor_name and c.args and
+                          any(isinstance(x, ast.Name) and x.id == idx for x in ast.walk(c.args[0])) for c in ast.walk(holder))
+            if not spliced:
+                continue
+            start = it.args[1] if len(it.args) > 1 else next((k.value for k in it.keywords if k.arg == "start"), None)
+            passes.append((holder, idx, ast.unparse(it.args[0]), start))
+    if not passes:
+        return None
+
+    def mapping_of(holder):
+        for st in ast.walk(fn_node):
+            if isinstance(st, ast.Assign) and st.value is holder and len(st.targets) == 1 and isinstance(st.targets[0], ast.Name):
+                return st.targets[0].id
+        return None
+
+    def block_of(holder):
+        """the innermost statement list with a statement that contains the pass, and the index of that statement"""
+        best = None
+        for sub in ast.walk(fn_node):
+            for fieldname in ("body", "orelse", "finalbody"):
+                blk = getattr(sub, fieldname, None)
+                if isinstance(blk, list):
+                    for i, st in enumerate(blk):
+                        if isinstance(st, ast.stmt) and any(x is holder for x in ast.walk(st)):
+                            if best is None or any(x is st for x in ast.walk(best[0][best[1]])):
+                                best = (blk, i)
+        return best
+
+    def sizes(e):
+        return {ast.unparse(c.args[0]) for c in ast.walk(e) if isinstance(c, ast.Call) and getattr(c.func, "id", None) == "len"
+                and c.args}
+    passes.sort(key=lambda p: (p[0].lineno, p[0].col_offset))
+    names = sorted({p[1] for p in passes})
+    first = passes[0]
+    if first[3] is not None and not (isinstance(first[3], ast.Constant) and first[3].value == 0):
+        return None
+    m0 = mapping_of(first[0])
+    for holder, idx, coll, start in passes[1:]:
+        if not isinstance(start, ast.Name):
+            return (False, "a later numbering pass does not start where the previous one ended", names)
+        k = start.id
+        inits = [st for st in ast.walk(fn_node) if isinstance(st, ast.Assign) and len(st.targets) == 1 and
+                 isinstance(st.targets[0], ast.Name) and st.targets[0].id == k]
+        if len(inits) != 1 or not (sizes(inits[0].value) & {m0, first[2]}) or len(sizes(inits[0].value)) != 1:
+            return None
+        loc = block_of(holder)
+        m = mapping_of(holder)
+        if loc is None:
+            return None
+        blk, i = loc
+        adv = [st for st in blk[i + 1:] if isinstance(st, ast.AugAssign) and isinstance(st.target, ast.Name) and
+               st.target.id == k and isinstance(st.op, ast.Add)]
+        if len(adv) != 1:
+            return None
+        got = sizes(adv[0].value)
+        if len(got) != 1:
+            return None
+        if not (got & {m, coll}):
+            return (False, "the offset `%s` of the numbering is advanced by len(%s), not by the size of the mapping this pass "
+                           "built (%s): numbers are reused or skipped, two different variables can get one name"
+                    % (k, sorted(got)[0], m or coll), names)
+    return (True, "", names)
